@@ -128,7 +128,7 @@ def check(prop, spec, tier, seed, replay=None):
     """spec: registry entry {drivers, mc: [...], level_note, rule}. Returns exit code."""
     t0 = time.time()
     scratch = tempfile.mkdtemp(prefix="isodt_verif_")
-    violations, known_hits = [], []
+    violations, known_hits, ext_devs = [], [], []
     mc_states = mc_trans = 0
     mc_runs = []
     try:
@@ -217,6 +217,10 @@ def check(prop, spec, tier, seed, replay=None):
                 hits = []
                 for rej in rejs:
                     ev = events[rej["l"] - 1]
+                    if rej["clause"].startswith("ext:"):
+                        # a clause of the specification that goes beyond the listed property: reported, never an alarm
+                        ext_devs.append({"op": rej["op"], "clause": rej["clause"], "case": case})
+                        continue
                     tag = classify(prop, f["drv"], case, dict(rej, event=ev), cevents)
                     hit = next((k for k in known if k["property"] == prop and tag is not None and k["tag"] == tag), None)
                     if hit:
@@ -239,6 +243,10 @@ def check(prop, spec, tier, seed, replay=None):
             n = sum(1 for x in known_hits if x["tag"] == tag)
             print("KNOWN-FINDING: property=%s %s [%s; %d occurrence(s) this run; e.g. %s]"
                   % (prop, k["what"], tag, n, json.dumps(k["example"], sort_keys=True)[:300]))
+        for cl in sorted({x["clause"] for x in ext_devs}):
+            xs = [x for x in ext_devs if x["clause"] == cl]
+            print("SPEC-DEVIATION (beyond the listed properties, not a violation of %s): %s; %d occurrence(s); e.g. %s"
+                  % (prop, cl, len(xs), json.dumps(xs[0]["case"], sort_keys=True)[:300]))
         for v in violations[:50]:
             print("VIOLATION property=%s replay=%s" % (prop, v["replay"]))
             print("  " + v["what"] + (("  case=" + json.dumps(v.get("case"), sort_keys=True)[:400]) if v.get("case") else ""))
@@ -251,7 +259,7 @@ def check(prop, spec, tier, seed, replay=None):
                 raise tlc.MachineryError("tracer gap: event kinds never recorded: %s" % sorted(expected_ops - ops))
             if not os.environ.get("VERIF_NO_EVIDENCE"):
                 _write_evidence(prop, spec, tier, seed, wall, mc_states, mc_trans, mc_runs, tr_states, tr_trans,
-                                len(files), nevents, ncases, len(nontriv), samples, violations, known_hits, sorted(ops))
+                                len(files), nevents, ncases, len(nontriv), samples, violations, known_hits, sorted(ops), len(ext_devs))
         print("%s %s: %d spec states (MC) + %d trace states; %d cases, %d events in %d trace files; "
               "%d violation(s), %d known-finding hit(s); %.1fs"
               % (prop, tier, mc_states, tr_states, ncases, nevents, len(files), len(violations), len(known_hits), wall))
@@ -271,7 +279,7 @@ def _write_replay(prop, obj):
 
 
 def _write_evidence(prop, spec, tier, seed, wall, mc_states, mc_trans, mc_runs, tr_states, tr_trans, nfiles,
-                    nevents, ncases, nontriv, samples, violations, known_hits, ops):
+                    nevents, ncases, nontriv, samples, violations, known_hits, ops, n_ext=0):
     os.makedirs(EVID_DIR, exist_ok=True)
     ev = {
         "property_id": prop, "tier": tier, "seed": int(seed), "level": "model_checking",
@@ -289,6 +297,7 @@ def _write_evidence(prop, spec, tier, seed, wall, mc_states, mc_trans, mc_runs, 
             "exhaustive": bool(spec.get("exhaustive", {}).get(tier, False)),
             "exhaustive_part": spec.get("exhaustive_part", {}).get(tier, ""),
             "known_finding_hits": len(known_hits),
+            "extended_spec_deviations": n_ext,
         },
         "assumptions": spec.get("assumptions", []),
         "wall_s": round(wall, 2),
